@@ -2,6 +2,8 @@ package main
 
 import (
 	"bufio"
+	"crypto/sha1"
+	"encoding/hex"
 	"encoding/json"
 	"flag"
 	"fmt"
@@ -49,6 +51,7 @@ type Mism struct {
 // Outcome is what happened for one vector.
 type Outcome struct {
 	ID      int      `json:"id"`
+	Key     string   `json:"key"` // hash of the input (module set, features, filters): counts distinct cases
 	Fam     string   `json:"fam"`
 	Verdict string   `json:"verdict"`
 	Errs    []string `json:"errs"`
@@ -120,6 +123,19 @@ func judge(id int, v *Vector) (Outcome, *TraceEvent) {
 	o := Outcome{ID: id, Fam: v.Fam, Verdict: v.Verdict, Errs: v.Errs, AltKind: v.AltKind, Cls: v.Cls, Mism: []Mism{}}
 	r := scm.Compile(v.Mods, v.Feats, scm.Filter{Op: "none"})
 	o.CodeOK, o.CodeErr = r.OK, short(r.Err)
+	h := sha1.New()
+	for _, t := range r.Texts {
+		h.Write([]byte(t))
+	}
+	fb, _ := json.Marshal(struct {
+		F []string
+		L int
+	}{v.Feats, len(v.Flt)})
+	h.Write(fb)
+	o.Key = hex.EncodeToString(h.Sum(nil))[:16]
+	if id%1000000 == 1 {
+		o.Texts = r.Texts // a sample of what was compiled, for the evidence file
+	}
 	if v.Verdict == "unjudged" {
 		return o, nil
 	}
@@ -193,7 +209,7 @@ func judge(id int, v *Vector) (Outcome, *TraceEvent) {
 	}
 	if len(o.Mism) > 0 {
 		o.Texts = r.Texts
-	} else {
+	} else if id%1000000 != 1 {
 		o.AltText = nil
 	}
 	return o, ev
